@@ -97,6 +97,10 @@ def t_neg_literal(c, ops, cp):
     return has(c, lambda n: n[0] == "un" and n[1] == "-" and ceval.is_const_expr(n[2]))
 
 
+def t_call(c, ops, cp):
+    return has(c, lambda n: n[0] == "call")
+
+
 def t_literal(c, ops, cp):
     return has(c, lambda n: n[0] == "num")
 
@@ -107,6 +111,8 @@ RULES = [
     Rule("hybrid-eager", "value", "KF-hybrid-eager", t_hybrid,
          doc="value-producing side effects are computed before the statement that consumes them: not guarded by enclosing ?: arms (only a statement-expression that is directly an arm, by the innermost condition), "
              "by && / ||, and computed once for a loop condition"),
+    Rule("return-does-not-leave", "value", "KF-return-does-not-leave", t_call, doc="a return statement does not leave the sub-routine: later statements still run and the last return executed determines the value"),
+    Rule("return-via-u64", "value", "KF-return-via-u64", t_call, doc="the return value is zero-extended into the unsigned 64-bit ret_val and truncated to the return type by the caller, instead of being converted to the return type"),
     Rule("neg-literal-signed", "value", "KF-neg-literal-signed", t_neg_literal, doc="the folded negation of a constant is typed signed (-1U becomes -1)"),
     Rule("const-cond-no-conversion", "value", "KF-const-cond-no-conversion", t_const_cond, doc="a ?: with a compile-time constant condition yields the live arm without converting it to the common type of both arms"),
     Rule("const-cond-dead-arm", "static", "KF-const-cond-dead-arm", t_const_cond, il_msg=r"^undeclared|^unset-local|identifier \\w+ is not|does not hold",
@@ -114,6 +120,7 @@ RULES = [
 ]
 BY_ID = {r.id: r for r in RULES}
 FINDING_OF = {r.id: r.finding for r in RULES}
+FINDING_OF["callee-locals-share-namespace"] = "KF-callee-locals-share-namespace"
 
 
 def triggered(cast, ops, cp):
